@@ -1,4 +1,4 @@
-import UmProofs.BrokerResPlanner
+import UmProofs.BrokerResRun
 /-!
 # C12 — Proxy resources are accounted consistently and chunks span two hosts
 
@@ -97,12 +97,15 @@ theorem C12_no_panic_allocator (s : Store) (proxyNum : Nat) (choice : List (Stri
 slots (this guards the *model's* loop fuel; it follows from `SlotInv c`, see `MigPre_of_SlotInv`);
 `DownPre c k` = `MigPre c` and every master kept by a scale-down to `k` chunks owns at most its
 final share (otherwise `need_num` of `remove_slots_from_src_to_scale_down` underflows). Both are
-required only of the cluster the operation addresses (for `auto_change_node_number`: the cluster left
-after deleting its free chunks, and only when the call scales down). -/
+required only of the cluster the operation addresses and only when the planner is actually reached
+(`DownGuard`: no slot-less half, no pending migration, valid smaller node number; for
+`auto_change_node_number`: the cluster left after deleting its free chunks, when the call scales
+down). On boundedly reachable stores C10 proves these hypotheses (`C10_reachable_migPre`,
+`C10_reachable_downPre_planner`), which gives `C12_no_panic_run` below. -/
 def PlannerPre (s : Store) : Op → Prop
   | .migrate n => ∀ c, s.findCluster n = some c → MigPre c
   | .scaleOutNum n _ => ∀ c, s.findCluster n = some c → MigPre c
-  | .scaleDown n k => ∀ c, s.findCluster n = some c → DownPre c (k / 4)
+  | .scaleDown n k => ∀ c, s.findCluster n = some c → DownGuard c k → DownPre c (k / 4)
   | .changeNum n k _ => ∀ c, (autoDeleteFreeNodes s n).1.findCluster n = some c → k < c.chunks.length * 4 →
       DownPre c (k / 4)
   | _ => True
@@ -120,7 +123,7 @@ theorem C12_no_panic_planner_partial (s : Store) (h : Reachable s) (op : Op) (hp
   | changeNum n k c => exact Outcome.ofR_ne_panic (autoChangeNodeNumber_noPanic hx n k c hpre)
   | scaleOutNum n k => exact Outcome.ofR_ne_panic (autoScaleOutNodeNumber_noPanic s n k hpre)
   | migrate n => exact Outcome.ofR_ne_panic (migrateSlots_no_panic' s n hpre)
-  | scaleDown n k => exact Outcome.ofR_ne_panic (migrateSlotsToScaleDown_no_panic' s n k hpre)
+  | scaleDown n k => exact Outcome.ofR_ne_panic (migrateSlotsToScaleDown_noPanic_guarded s n k hpre)
   | addProxy a n0 n1 ho => exact C12_no_panic s h _ rfl
   | removeProxy a => exact C12_no_panic s h _ rfl
   | addCluster n k c => exact C12_no_panic s h _ rfl
@@ -135,6 +138,40 @@ theorem C12_no_panic_planner_partial (s : Store) (h : Reachable s) (op : Op) (hp
   | bumpAll e => exact C12_no_panic s h _ rfl
   | recover e => exact C12_no_panic s h _ rfl
   | addFailure a r t => exact C12_no_panic s h _ rfl
+
+/-- **C12_no_panic_run** (full statement over bounded histories). For every operation list all of
+whose prefixes keep every cluster at ≤ 16384 masters (`PlanBound`, the only assumption — it is what
+`create_slots`/the planner arithmetic and the model's loop fuel are sized for), every next
+operation and every nondeterministic choice: no `expect`, index or underflow panic. Non-planner
+operations by `C12_no_panic`; `migrate_slots`, `auto_scale_out_node_number`,
+`migrate_slots_to_scale_down`, `auto_change_node_number` by C10's `planner_noPanicB`
+(= `C10_planner_no_panic`: slot counts and balance of boundedly reachable stores discharge `PlannerPre`). -/
+theorem C12_no_panic_run (ops : List Op) (hb : ∀ k, Plan.PlanBound (run (ops.take k))) (op : Op) :
+    (stepFull (run ops) op).2 ≠ .panic := by
+  have hB := reachableB_run ops hb
+  obtain ⟨h1, h2, h3, h4⟩ := Scale.planner_noPanicB hB
+  cases hop : op.usesPlanner with
+  | false => exact C12_no_panic _ (reachable_run ops) op hop
+  | true =>
+    cases op with
+    | migrate n => exact h1 n
+    | scaleOutNum n k => exact h2 n k
+    | scaleDown n k => exact h3 n k
+    | changeNum n k c => exact h4 n k c
+    | addProxy a n0 n1 ho => cases hop
+    | removeProxy a => cases hop
+    | addCluster n k c => cases hop
+    | removeCluster n => cases hop
+    | addNodes n k c => cases hop
+    | scaleUp n k c => cases hop
+    | delFree n => cases hop
+    | commit n e rl t c => cases hop
+    | failover a c => cases hop
+    | balance n => cases hop
+    | config n kv => cases hop
+    | bumpAll e => cases hop
+    | recover e => cases hop
+    | addFailure a r t => cases hop
 
 /-- the `migrate_slots` half of the hypothesis follows from the slot invariant `SlotInv` (C01) and
 "at most 16384 masters" -/
@@ -445,6 +482,15 @@ example : ∀ c ∈ (run scaledOut).clusters, MigPre c := by decide +kernel
 example : okO (stepFull (run scaledOut) (.migrate "c0")).2 = true ∧
     (stepFull (run scaledOut) (.migrate "c0")).1.clusters.any Cluster.isMigrating = true := by decide +kernel
 private def px (a h : String) : ProxyRes := { addr := a, node0 := "", node1 := "", host := h, index := 0, cluster := none }
+-- C12_no_panic_run: a bounded history ending in a pending scale-out; its next planner step is fine
+private instance : DecidablePred Plan.PlanBound := fun s => by unfold Plan.PlanBound; infer_instance
+example : ∀ k, Plan.PlanBound (run (scaledOut.take k)) := by
+  intro k
+  have h : ∀ j, j ≤ scaledOut.length → Plan.PlanBound (run (scaledOut.take j)) := by decide +kernel
+  by_cases hk : k ≤ scaledOut.length
+  · exact h k hk
+  · rw [List.take_of_length_le (by omega)]
+    simpa using h scaledOut.length (Nat.le_refl _)
 private def unbalanced : Store :=
   { globalEpoch := 1, proxies := [], failed := [], failures := [],
     clusters := [{ epoch := 1, name := "a", config := defaultConfig,
